@@ -183,3 +183,13 @@ pub fn selftest() -> i32 {
     println!("selftest explore: execs={} points={} transitions={} (twice identical)", s1.execs, s1.points, s1.transitions);
     0
 }
+
+pub fn compare_modes() {
+    for n in [2usize, 3] {
+        for reuse in [false, true] {
+            let ecfg = ExploreCfg { max_dev: 1, reuse_threads: reuse, ..Default::default() };
+            let s = explore::<Smoke>(&Cfg { ver: Ver::V5, n }, &ecfg, Instant::now() + Duration::from_secs(60));
+            println!("n={n} reuse={reuse}: execs={} points={} transitions={} outcomes={} iso={:?}", s.execs, s.points, s.transitions, s.outcomes.len(), s.isolation);
+        }
+    }
+}
